@@ -104,3 +104,149 @@ Theorem C10_each_limit_its_own_parameter :
      ("parser_deltaSizeGuard", ["MaxDeltaSize"]); ("parser_nonceGuard", ["NonceSize"])].
 Proof. exact parser_param_table. Qed.
 Print Assumptions C10_each_limit_its_own_parameter.
+
+From SV Require Import Base.Bytes Json.Ast Json.GoJson Json.GoJsonProofs Resolve.Op Jws.Compact Parser.Accept Parser.AcceptProofs Parser.ViewOfBytes Parser.ViewOfBytesProofs.
+Local Close Scope Z_scope.
+
+(* FROM THE REQUEST BYTES.  The view is computed inside Coq from the raw bytes (model of encoding/json and of go-jose's decoder, Json/GoJson.v, tied to the real decoders by gen_view): a request the parser accepts is within the size limit, is a JSON object, decodes into the schema and the request struct of its type, and is dispatched on its type *)
+Theorem C10_bytes_accepted_request_is_json_object_within_size :
+  forall (p : pproto) (batch t : bool) (b : bytes) (valid : list bool) 
+           (origin : bool) (o : parsed),
+         parse_operation_bytes p batch t b valid origin = Some o ->
+         let v := view_of_request b valid origin in
+         (Z.of_nat (Datatypes.length b) <= pp_max_op_size p)%Z /\
+         (exists m : list (bytes * gj), std_parse b = Some (GObj m)) /\
+         rv_schema_ok v = true /\
+         rv_struct_ok v = true /\
+         (rv_type v = bytes_of_string "create" /\ parse_create p batch v = Some o \/
+          rv_type v = bytes_of_string "update" /\ parse_update p batch t v = Some o \/
+          rv_type v = bytes_of_string "deactivate" /\ parse_deactivate p batch t v = Some o \/
+          rv_type v = bytes_of_string "recover" /\ parse_recover p batch t v = Some o).
+Proof. exact accepted_bytes_dispatch. Qed.
+Print Assumptions C10_bytes_accepted_request_is_json_object_within_size.
+
+(* acceptance of update request BYTES implies every rule, stated on the decoded struct *)
+Theorem C10_bytes_update_rules :
+  forall (p : pproto) (t : bool) (b : bytes) (valid : list bool) (origin : bool) (o : parsed),
+         parse_operation_bytes p false t b valid origin = Some o ->
+         let v := view_of_request b valid origin in
+         rv_type v = bytes_of_string "update" ->
+         exists r : update_m,
+           unmarshal update_member update_zero b = Some r /\
+           ur_did r <> [] /\
+           hash_field_ok p (ur_reveal r) /\
+           ur_signed r <> [] /\
+           signed_rules p v /\
+           t = true /\
+           decoded_delta_ok p (ur_delta r) valid /\
+           hash_field_ok p (sv_delta_hash (rv_signed v)) /\
+           (exists (code : N) (c : bytes),
+              Multihash.get_multihash_code (dv_update_commitment (rv_delta v)) = Some code /\
+              Multihash.get_commitment (jv_canonical (sv_key (rv_signed v))) code = Some c /\
+              c <> dv_update_commitment (rv_delta v)) /\ po_ty o = Update /\ po_suffix o = ur_did r.
+Proof. exact update_bytes_accept_implies_rules. Qed.
+Print Assumptions C10_bytes_update_rules.
+
+(* likewise recover *)
+Theorem C10_bytes_recover_rules :
+  forall (p : pproto) (t : bool) (b : bytes) (valid : list bool) (origin : bool) (o : parsed),
+         parse_operation_bytes p false t b valid origin = Some o ->
+         let v := view_of_request b valid origin in
+         rv_type v = bytes_of_string "recover" ->
+         exists r : update_m,
+           unmarshal update_member update_zero b = Some r /\
+           ur_did r <> [] /\
+           hash_field_ok p (ur_reveal r) /\
+           signed_rules p v /\
+           t = true /\
+           origin = true /\
+           decoded_delta_ok p (ur_delta r) valid /\
+           hash_field_ok p (sv_delta_hash (rv_signed v)) /\
+           hash_field_ok p (sv_recovery_commitment (rv_signed v)) /\
+           (exists (code : N) (c : bytes),
+              Multihash.get_multihash_code (sv_recovery_commitment (rv_signed v)) = Some code /\
+              Multihash.get_commitment (jv_canonical (sv_key (rv_signed v))) code = Some c /\
+              c <> sv_recovery_commitment (rv_signed v)) /\
+           dv_update_commitment (rv_delta v) <> sv_recovery_commitment (rv_signed v) /\
+           po_ty o = Recover /\ po_suffix o = ur_did r.
+Proof. exact recover_bytes_accept_implies_rules. Qed.
+Print Assumptions C10_bytes_recover_rules.
+
+(* likewise deactivate *)
+Theorem C10_bytes_deactivate_rules :
+  forall (p : pproto) (t : bool) (b : bytes) (valid : list bool) (origin : bool) (o : parsed),
+         parse_operation_bytes p false t b valid origin = Some o ->
+         let v := view_of_request b valid origin in
+         rv_type v = bytes_of_string "deactivate" ->
+         exists r : deact_m,
+           unmarshal deact_member deact_zero b = Some r /\
+           de_did r <> [] /\
+           hash_field_ok p (de_reveal r) /\
+           signed_rules p v /\
+           t = true /\
+           sv_did_suffix (rv_signed v) = de_did r /\ po_ty o = Deactivate /\ po_suffix o = de_did r.
+Proof. exact deactivate_bytes_accept_implies_rules. Qed.
+Print Assumptions C10_bytes_deactivate_rules.
+
+(* likewise create; the suffix is the multihash of the canonical form of the decoded suffix data *)
+Theorem C10_bytes_create_rules :
+  forall (p : pproto) (t : bool) (b : bytes) (valid : list bool) (origin : bool) (o : parsed),
+         parse_operation_bytes p false t b valid origin = Some o ->
+         let v := view_of_request b valid origin in
+         rv_type v = bytes_of_string "create" ->
+         exists (r : create_m) (s : suffix_m),
+           unmarshal create_member create_zero b = Some r /\
+           cr_suffix r = Some s /\
+           hash_field_ok p (sm_rec s) /\
+           hash_field_ok p (sm_delta_hash s) /\
+           origin = true /\
+           decoded_delta_ok p (cr_delta r) valid /\
+           Multihash.is_valid_model_multihash (dv_canonical (rv_delta v)) (sm_delta_hash s) = true /\
+           dv_update_commitment (rv_delta v) <> sm_rec s /\
+           po_ty o = Create /\
+           Multihash.unique_suffix (canonical_of (suffix_json s)) (pp_hash_algs p) =
+           Some (po_suffix o).
+Proof. exact create_bytes_accept_implies_rules. Qed.
+Print Assumptions C10_bytes_create_rules.
+
+(* arbitrary bytes: over the size limit *)
+Theorem C10_bytes_oversize_rejected :
+  forall (p : pproto) (batch t : bool) (b : list Byte.byte) (valid : list bool)
+           (origin : bool),
+         (Z.of_nat (Datatypes.length b) > pp_max_op_size p)%Z ->
+         parse_operation_bytes p batch t b valid origin = None.
+Proof. exact oversize_bytes_rejected. Qed.
+Print Assumptions C10_bytes_oversize_rejected.
+
+(* arbitrary bytes: not JSON means rejected (the decoder model is total: a verdict for every byte string) *)
+Theorem C10_bytes_invalid_json_rejected :
+  forall (p : pproto) (batch t : bool) (b : bytes) (valid : list bool) (origin : bool),
+         std_parse b = None -> parse_operation_bytes p batch t b valid origin = None.
+Proof. exact invalid_json_bytes_rejected. Qed.
+Print Assumptions C10_bytes_invalid_json_rejected.
+
+(* the decoder model never rejects for lack of fuel *)
+Theorem C10_decoder_fuel_never_decides :
+  forall (lim : option N) (b : bytes) (k : nat),
+         match pvalue (go_fuel b + k) lim 0 b with
+         | Some (v, rest) => match skip_ws rest with
+                             | [] => Some v
+                             | _ :: _ => None
+                             end
+         | None => None
+         end = go_parse lim b.
+Proof. exact go_parse_any_fuel. Qed.
+Print Assumptions C10_decoder_fuel_never_decides.
+
+(* decoding the canonical text of a value returns that value (round trip with the JCS printer of C07) *)
+Theorem C10_canonical_text_decodes_to_its_value :
+  forall (v : json) (lim : option N) (ws : bytes),
+         gwf v ->
+         JcsProofs.top_shape v ->
+         depth_fits lim 0 v ->
+         all_space ws = true ->
+         exists t : gj,
+           go_parse lim (Jcs.print_canonical v ++ ws) = Some t /\
+           to_iface t = Some (JcsProofs.cnorm v).
+Proof. exact decode_canonical_text. Qed.
+Print Assumptions C10_canonical_text_decodes_to_its_value.
